@@ -1,16 +1,17 @@
 SPECIFICATION Spec
 CONSTANTS
   Sigs = {"traces"}
-  Reqs = {1}
-  Variant = "nowait"
-  Configs = {"g"}
-  Kinds = {"same"}
-  MaxLen = 9
-  MaxProbe = 0
+  Reqs = {1, 2}
+  Variant = "real"
+  Configs = {"gh"}
+  Kinds = {"same", "fresh"}
+  MaxLen = 16
+  MaxProbe = 1
   MaxHold = 0
-  MaxSd = 1
-  GSet = {1}
+  MaxSd = 2
+  GSet = {1, 2}
 CONSTRAINT Bound
+VIEW View
 ACTION_CONSTRAINT InOrder
 ACTION_CONSTRAINT ServeOrder
 INVARIANT TypeOK
